@@ -130,7 +130,7 @@ def run(ctx):
     trace = os.path.join(ctx.work, "jobs.ndjson")
     stats = os.path.join(ctx.work, "aimed.json")
     num = 450 if quick else 4500
-    aimed = ["--aimed-ms", 9000, "--aimed-min", 300, "--aimed-max", 40000] if quick else \
+    aimed = ["--aimed-ms", 9000, "--aimed-min", 500, "--aimed-max", 40000] if quick else \
             ["--aimed-ms", 90000, "--aimed-min", 3000, "--aimed-max", 400000]
     ctx.vh(["C33", "record", "--num", num, "--trace", trace, "--stats", stats] + aimed, timeout=3000)
     hs = split(core.read_ndjson(trace))
@@ -157,7 +157,7 @@ def run(ctx):
     # aimed histories: every shot was run on the real code; shots with the same event sequence are validated once
     ctx.extra["aimed"] = st
     shots = sum(v for (k, v) in st["counts"].items() if k.startswith("shots:"))
-    if shots < (300 if quick else 3000):
+    if shots < (500 if quick else 3000):
         raise core.MachineryError("only %d aimed histories were run" % shots)
 
     notok, first = set(), {}
